@@ -90,6 +90,9 @@ func ValidateFix(conf *Root) error {
 		if err := ValidateColRefs(conf.Integrations[i]); err != nil {
 			return fmt.Errorf("checking config for references: %w", err)
 		}
+		if err := conf.Integrations[i].CheckSources(); err != nil {
+			return fmt.Errorf("checking config for sources: %w", err)
+		}
 	}
 	return nil
 }
@@ -526,6 +529,22 @@ func Integrations(ctx context.Context, pg wpg.Conn) ([]Integration, error) {
 		res = append(res, ig)
 	}
 	return res, nil
+}
+
+// Each source an integration references is indexed by exactly
+// one task. Naming the same source more than once would start
+// several tasks that write the same rows and the same
+// shovel.task_updates position, so it is an error.
+func (ig Integration) CheckSources() error {
+	var seen = map[string]struct{}{}
+	for _, sc := range ig.Sources {
+		if _, ok := seen[sc.Name]; ok {
+			const tag = "duplicate source reference %q in integration %q"
+			return fmt.Errorf(tag, sc.Name, ig.Name)
+		}
+		seen[sc.Name] = struct{}{}
+	}
+	return nil
 }
 
 func (ig Integration) Source(name string) (Source, error) {
